@@ -18,5 +18,5 @@ trap 'rm -rf "$d"' EXIT
   echo '}}'
 } > "$d/ov.json"
 cd "$repo" || exit 2
-go build -overlay "$d/ov.json" -o "$d/axcheck" ./internal/zz_axcheck 2>"$d/err" || { echo "AXCHECK-BUILD-ERROR: $(head -5 "$d/err" | tr '\n' ' ')"; exit 2; }
+go build -tags verif -overlay "$d/ov.json" -o "$d/axcheck" ./internal/zz_axcheck 2>"$d/err" || { echo "AXCHECK-BUILD-ERROR: $(head -5 "$d/err" | tr '\n' ' ')"; exit 2; }
 "$d/axcheck" "$suite"
